@@ -107,7 +107,7 @@ def simOp (net : Net) (toks : List String) : Option (Net × String) :=
   | ["fixfinger", n] => (nat n).map fun n => (fixFinger net n, "ok")
   | ["checkpred", n] => (nat n).map fun n => (checkPredecessor net n, "ok")
   | ["crash", n] => (nat n).map fun n => (net.upd n (fun nd => { nd with crashed := true }), "ok")
-  | ["lookup", n, k] => do
+  | ["lookupq", n, k] | ["lookup", n, k] => do
     let n ← nat n; let k ← nat k
     pure (net, match findSucc net FUEL n k with | .found o => s!"found:{o}" | .err e => "err:" ++ e.name)
   | ["reqjoin", s, j] => do
